@@ -74,6 +74,9 @@ pub enum Act {
     StopResolve(String),
     Metrics,
     Tick,
+    Register(crate::respond::Svc),
+    Unregister(String),
+    IpInterval(u32),
 }
 
 pub struct Runner {
@@ -181,6 +184,13 @@ impl Runner {
                 self.sim.get_metrics(d);
             }
             Act::Tick => {}
+            Act::Register(sv) => {
+                self.sim.register(d, sv.info());
+            }
+            Act::Unregister(n) => {
+                self.sim.unregister(d, &n);
+            }
+            Act::IpInterval(secs) => self.sim.set_ip_check_interval(d, secs),
         }
     }
 
@@ -285,7 +295,7 @@ impl Runner {
                 self.sim.step(self.d);
             }
             iters += 1;
-            if iters > self.max_iters || self.sim.hung || !self.sim.daemons[self.d].alive {
+            if iters > self.max_iters || self.sim.hung || !self.sim.daemons[self.d].alive || self.sim.idle_streak >= 40 {
                 return;
             }
         }
@@ -733,5 +743,76 @@ pub fn scenario_flood(id: u64, seed: u64, thorough: bool) -> Vec<Value> {
     run.at(horizon, Act::Metrics);
     run.max_iters = 40_000;
     run.run_until(horizon + 100);
+    run.sim.finish()
+}
+
+/// Family `silent` (C12): every kind of time-driven work is started, then the
+/// network stays silent and the daemon is woken only when it asks to be
+/// (policy W) over horizons from tens of seconds to hours; the interface-check
+/// interval is left at its default, made very large, set to zero at start-up
+/// or changed at run time (to zero, and from zero back to a value).
+pub fn scenario_silent(id: u64, seed: u64, thorough: bool) -> Vec<Value> {
+    let mut r = Rng::new(seed.wrapping_mul(49979687).wrapping_add(id));
+    let ifs = vec![IfSpec { name: "eth0".into(), index: 2, addrs: vec![(v4(192, 168, 1, 10), 24)], up: true }];
+    let mut sim = Sim::new(json!({"id": id, "family": "silent"}), seed ^ id, vec![ifs.clone()], vec![vec![(0, 2)]]);
+    let d = sim.spawn(0);
+    let mut run = Runner::new(sim, d, r.fork(4), false);
+    run.answer_prob = (0, 1);
+    let horizon: u64 = *r.pick(&[20_000u64, 60_000, 600_000, if thorough { 3 * 86_400_000 / 10 } else { 3_600_000 * 3 }]);
+    // interface-check interval
+    match r.below(6) {
+        0 => run.at(0, Act::IpInterval(0)),
+        1 => run.at(0, Act::IpInterval(100_000)),
+        2 => run.at(r.range(1000, 9000), Act::IpInterval(0)),
+        3 => {
+            run.at(0, Act::IpInterval(0));
+            run.at(r.range(1000, 9000), Act::IpInterval(2));
+        }
+        4 => run.at(r.range(1000, 9000), Act::IpInterval(1)),
+        _ => {}
+    }
+    let src = sock4(192, 168, 1, 77, 5353);
+    if r.chance(2, 3) {
+        let sv = crate::respond::Svc { ty: "_http._tcp.local.".into(), inst: format!("Quiet{}", id % 7), host: "quiet.local.".into(),
+            addrs: vec![v4(192, 168, 1, 10)], port: 80, props: vec![], probe: !r.chance(1, 5) };
+        let t0 = r.below(3000);
+        run.at(t0, Act::Register(sv.clone()));
+        if r.chance(1, 3) {
+            run.at(t0 + r.range(200, 8000), Act::Unregister(sv.fullname()));
+        }
+    }
+    if r.chance(2, 3) {
+        let t0 = r.below(3000);
+        run.at(t0, Act::Browse("_ipp._tcp.local.".into(), false));
+        // one announcement, then silence: refreshes, expiry and removal have to happen by themselves
+        let ttl = *r.pick(&[2u32, 5, 10, 60, 120]);
+        let rm = Remote { ty: Name::from_escaped("_ipp._tcp.local."), sub: None, inst: Name::from_labels(&["p1", "_ipp", "_tcp", "local"]),
+            host: Name::from_labels(&["p1host", "local"]), port: 631, txt: vec![0], addrs: vec![v4(192, 168, 1, 77)], ttl_host: ttl,
+            ttl_other: ttl * 2, ifidx: 2, src, answers: false };
+        let ta = t0 + r.range(10, 4000);
+        let recs = if r.chance(1, 4) { vec![rm.ptr()] } else { rm.all() };
+        run.at(ta, Act::Deliver { ifidx: 2, src, msg: wire::response(recs), compress: true });
+        if r.chance(1, 3) {
+            run.at(ta + r.range(100, 3000), Act::Verify(rm.inst.unescaped(), *r.pick(&[500u64, 3000, 10_000])));
+        }
+        if r.chance(1, 4) {
+            let mut g = vec![rm.ptr()];
+            g[0].ttl = 0;
+            run.at(ta + r.range(500, 5000), Act::Deliver { ifidx: 2, src, msg: wire::response(g), compress: true });
+        }
+        if r.chance(1, 4) {
+            run.at(r.range(4000, horizon), Act::StopBrowse("_ipp._tcp.local.".into()));
+        }
+    }
+    if r.chance(1, 2) {
+        let to = *r.pick(&[None, Some(1500u64), Some(20_000)]);
+        run.at(r.below(3000), Act::Resolve("Lonely.local.".into(), to));
+        if r.chance(1, 2) {
+            let m = wire::response(vec![RR::new(Name::from_labels(&["lonely", "local"]), true, *r.pick(&[2u32, 10, 120]), RData::A([192, 168, 1, 88]))]);
+            run.at(r.range(100, 6000), Act::Deliver { ifidx: 2, src, msg: m, compress: true });
+        }
+    }
+    run.max_iters = 60_000;
+    run.run_until(horizon);
     run.sim.finish()
 }
